@@ -513,6 +513,11 @@ static void spawn_worker(WorkerState &ws, unsigned W, uint64_t base_seed, uint64
 	{
 		close(pfd[0]);
 		prctl(PR_SET_PDEATHSIG, SIGKILL);
+		if (!getenv("TMCGSIM_WORKER_STDERR"))
+		{
+			int nfd = open("/dev/null", O_WRONLY); // perror() chatter of the library; crashes are re-run with capture
+			if (nfd >= 0) { dup2(nfd, 2); close(nfd); }
+		}
 		worker_loop(pfd[1], ws.index, W, base_seed, first, last, deadline);
 		_exit(0);
 	}
@@ -821,7 +826,10 @@ int runner_main(int argc, char **argv, const Scenario &sc)
 				gate_fail++; continue;
 			}
 		}
+		if (seen_sig.count(key.vprop + "/" + key.vclass))
+			continue;
 		seen_sig.insert(sig0);
+		seen_sig.insert(key.vprop + "/" + key.vclass);
 		unsigned reruns = 0;
 		unsigned budget = g_tier.thorough ? 200 : 80;
 		Plan m = minimise(p, key, budget, opt.run_timeout, reruns);
@@ -862,7 +870,9 @@ int runner_main(int argc, char **argv, const Scenario &sc)
 			<< "\", \"ops_before\": " << p.ops.size() << ", \"ops_after\": " << m.ops.size()
 			<< ", \"shrink_reruns\": " << reruns << "}";
 	}
-	if (gate_fail) exit_code = 2;
+	// a violation that passed the gate is reported as such (exit 1) even if another candidate of the
+	// same batch did not replay (typically undefined behaviour of a memory-unsafe tree in the plain build)
+	if (gate_fail && reported == 0) exit_code = 2;
 	uint64_t n_viol = ps.cands.size();
 
 	double t_all = wall() - t0;
@@ -910,7 +920,7 @@ int runner_main(int argc, char **argv, const Scenario &sc)
 		(unsigned long long)ps.evaluations, ps.distinct_nontrivial.size(),
 		(unsigned long long)ps.excluded, (unsigned long long)n_viol, reported,
 		(unsigned long long)(det_checked - det_mismatch), (unsigned long long)det_checked, t_all);
-	if (exit_code == 0 && reported > 0)
+	if (reported > 0 && det_mismatch == 0)
 		exit_code = 1;
 	return exit_code;
 }
